@@ -126,6 +126,17 @@ CORRUPTIONS = {
         ("norm of the returned vector", lambda e: e["ev"] == "Return", _set(unit_units=10 ** 6), "UnitNorm"),
         ("decay of the non-dominant component", lambda e: e["ev"] == "Iter" and e["k"] == 3 and e["r_lg"] > -2000, lambda e: e.__setitem__("r_lg", e["r_lg"] + 100), "M:DecayLaw"),
     ],
+    "DeepLinearTrace": [
+        ("kind of a recorded inner call (a right factor asked where the left one is due)", lambda e: e["ev"] == "Pinv" and e["kind"] == "X", _set(kind="W"), "M:Schedule"),
+        ("shape of a recorded factor", lambda e: e["ev"] == "Pinv" and e["kind"] == "W", _bump(["cols"]), "M:FactorShape"),
+        ("argument of an inner call is not the current product", lambda e: e["ev"] == "Pinv", _set(match=False), "M:FactorIsCurrentProduct"),
+        ("one inner call removed from the log (mirror out of step)", lambda e: e["ev"] == "Pinv" and e["mirror_sweep"] == 1, _bump(["mirror_layer"]), "M:MirrorInStep"),
+        ("length of the returned history", lambda e: e["ev"] == "Return" and e["nh"] > 0, lambda e: (e.__setitem__("nh", e["nh"] + 1), e["below"].append(False)), ("M:HistoryCountsSweeps", "M:StopRule")),
+        ("an early history entry below tol", lambda e: e["ev"] == "Return" and e["nh"] >= 2, lambda e: e["below"].__setitem__(0, True), "M:StopsAtFirstBelowTol"),
+        ("stopped although not below tol and budget left", lambda e: e["ev"] == "Return" and e["nh"] >= 1 and e["below"][-1] and e["nh"] < e["max_iter"], lambda e: e["below"].__setitem__(len(e["below"]) - 1, False), "M:StopRule"),
+        ("recorded reconstruction error", lambda e: e["ev"] == "Return", _set(truthful=False), "M:ReconstructionErrorTruthful"),
+        ("caller's array changed", lambda e: e["ev"] == "Return", _set(args_unchanged=False), "ArgumentsUnchanged"),
+    ],
     "LibraryTrace": [
         ("rank of a recorded result", lambda e: e["op"] in ("herm", "pinv", "gram") and e["out"], _bump(["out", 0, "r"]), None),
         ("value returned by rank()", lambda e: e["op"] == "rank", _bump(["value", "nonzero"]), "Library:RankValue"),
